@@ -287,5 +287,9 @@ fn clip_batch_trivial_paths() {
 // 9 GB, no verdict; (7) the same with symbolic f32 attributes: timeout at 30 min; (8) a single plane, a single triangle,
 // ClipPlane::clip_simple_polygon with symbolic attributes: CBMC aborts (status 6) after 5 min / "pointer to unallocated memory".
 // The Vec-based polygon buffers are what CBMC cannot digest; the clipped path stays undecided.
+// (9) after concrete-input harnesses turned out to decide inverse() and parse_obj: ONE concrete triangle covering the right/top
+// corner, (0,0,0,1) (3,0,0,1) (0,3,0,1), with the concrete linear attribute 2x+10y-3z+5w, asserting two output triangles, every
+// vertex inside the frustum and attribute = field(position) within 1e-3: no verdict in 40 min, 9 GB (timeout).  Even with all
+// control constant the clip step stays out of reach; seed C03c (attribute interpolation skipped at frustum corners) is missed.
 
 include!("gen/dispatch_clip.rs");
